@@ -7,8 +7,9 @@ package main
 // 2-6 exchanges over the same datagram dns.Conn with the same dns.Client where
 // the things that decide how much of a reply can be received change from one
 // exchange to the next: the EDNS0 size the query advertises (none, below 512,
-// 512, 1232, 4096, 8192, 65535), Client.UDPSize (0, below 512, 512, 1232, 4096),
-// the UDPSize the Conn starts with (0, what Client.Dial copies, something else),
+// 511..513, 600, 800, 1232, sometimes 4096, 8192, 65535), Client.UDPSize (0,
+// below 512, 512, 600, 1232, sometimes 4096 or 8192), the UDPSize the Conn
+// starts with (0, what Client.Dial copies, something else),
 // and the size of the reply, directed at both sides of each of those limits.
 // Whatever an exchange leaves unread (stale and duplicate replies behind the
 // matching one) is still queued on the socket for the next exchange, as on a
@@ -39,14 +40,20 @@ import (
 )
 
 // nullReply is the recipe "n<id>.<L>.<seed>": a response header with ANCOUNT 1
-// and one NULL record (owner root) whose L octets of RDATA are prng(L, seed).
+// and one NULL record (owner root) whose L octets of RDATA come from a 16-bit
+// congruential generator started at seed (Corr/C12.v fill).
 // It is 23+L octets long, Msg.Pack reproduces it octet for octet, and no proper
 // prefix of it decodes (checked where it is generated).
 func nullReply(id uint16, l int, seed uint64) []byte {
 	b := make([]byte, 0, 23+l)
 	b = append(b, byte(id>>8), byte(id), 0x80, 0, 0, 0, 0, 1, 0, 0, 0, 0)
 	b = append(b, 0, 0, 10, 0, 1, 0, 0, 0, 0, byte(l>>8), byte(l))
-	return append(b, prng(l, seed)...)
+	x := seed & 0xffff
+	for i := 0; i < l; i++ {
+		x = (5*x + 1) & 0xffff
+		b = append(b, byte(x>>8))
+	}
+	return b
 }
 
 type sessDgram struct {
@@ -70,8 +77,23 @@ type sessIn struct {
 	Want          string   `json:"want,omitempty"`
 }
 
-var sessOptSizes = []int{-1, -1, 100, 512, 1232, 4096, 8192, 65535}
-var sessClientSizes = []int{0, 0, 300, 512, 1232, 4096}
+// Only 512 is a constant of the library; the other sizes stand for any receive
+// size, so most are kept small (model cases cost time in proportion to the
+// octets) and the large ones are rare.
+var sessOptSizes = []int{-1, -1, -1, 100, 511, 512, 513, 600, 800, 1232, 1232}
+var sessClientSizes = []int{0, 0, 0, 300, 512, 600, 1232}
+
+func pickSize(r *Rng, small []int) int {
+	switch {
+	case r.Intn(300) == 0:
+		return 65535
+	case r.Intn(40) == 0:
+		return 8192
+	case r.Intn(12) == 0:
+		return 4096
+	}
+	return small[r.Intn(len(small))]
+}
 
 func advertised(clientSize, opt int) int {
 	a := 512
@@ -120,20 +142,23 @@ func replyLen(r *Rng, limits []int) int {
 
 func runSessionsScripted(r *Rng, n int) {
 	for s := 0; s < n; s++ {
-		clientSize := sessClientSizes[r.Intn(len(sessClientSizes))]
+		clientSize := pickSize(r, sessClientSizes)
+		if clientSize == 65535 {
+			clientSize = 4096
+		}
 		connInit := 0
 		switch r.Intn(4) {
 		case 0:
 			connInit = clientSize // what Client.Dial does
 		case 1:
-			connInit = []int{512, 1232, 4096}[r.Intn(3)]
+			connInit = []int{512, 600, 1232, 4096}[r.Intn(4)]
 		}
 		nx := 2 + r.Intn(5)
 		var xs []sessExchange
 		var prevIDs []uint16
-		limits := []int{512, 1232, 4096}
+		limits := []int{512, 600, 800, 1232}
 		for i := 0; i < nx; i++ {
-			x := sessExchange{qid: uint16(r.Next()), opt: sessOptSizes[r.Intn(len(sessOptSizes))]}
+			x := sessExchange{qid: uint16(r.Next()), opt: pickSize(r, sessOptSizes)}
 			adv := advertised(clientSize, x.opt)
 			// well-formed replies with other IDs first (IDs of earlier exchanges on this Conn among them)
 			for k := r.Intn(3); k > 0; k-- {
@@ -195,7 +220,7 @@ func runOneSession(clientSize, connInit int, xs []sessExchange) {
 				return
 			}
 			// ... and no cut of it does (the model's [decodes] for these cases)
-			for _, b := range []int{512, 1232, 4096, 8192, clientSize, connInit} {
+			for _, b := range []int{512, 513, 600, 800, 1232, 4096, 8192, clientSize, connInit} {
 				if b >= 12 && b < len(d.data) && decodesOK(d.data[:b]) {
 					stat["session_recipe_rejected"]++
 					return
@@ -479,7 +504,7 @@ func runSessionsLoopback(r *Rng, nclients, per int) {
 }
 
 func runSessions(r *Rng, tier string) {
-	n, k := 150, 1
+	n, k := 110, 1
 	if tier == "thorough" {
 		n, k = 2500, 6
 	}
